@@ -55,6 +55,10 @@ CORPUS = [
     {"kind": "time", "target": "template", "text": '{% component "files" root="C:' + "\\d" * 40 + " %}", "trigger": T_HANG},
     {"kind": "time", "target": "parse_template", "text": "{% slot '" + "\\" * 60 + " %}{% endslot %}", "trigger": T_HANG},
     {"kind": "time", "target": "detailed", "text": '{% a "' + '\\"' * 50, "trigger": T_HANG},
+    # seeded change C12c (TagValuePart.serialize dropped `_( )` on a filter argument): round trip of documented tags, smallest shapes
+    {"kind": "roundtrip", "text": 'component title=title|default:_("Untitled")', "trigger": T_ROUND},
+    {"kind": "roundtrip", "text": "c a=[x|f:_('t'), *y] {k: v|g:_(\"u\")|h, **d} ...e|f:1 _('w')|f /", "trigger": T_ROUND},
+    {"kind": "roundtrip", "text": "c [ *[ 1 , ] , ] { 'k' : [ ] , **{ } , } ...x", "trigger": T_ROUND},
     # shapes that once looked suspicious while porting (all fine): empty quote char after `_(`, `=` first, ...
     {"kind": "parse_serialize", "text": "_(", "trigger": T_CLASS},
     {"kind": "parse_serialize", "text": "a|_(", "trigger": T_CLASS},
@@ -200,7 +204,8 @@ def roundtrip(r):
 
 def roundtrip_class(r):
     """input class of an accepted input, decided on its parsed arguments: documented | empty-key (`=value`: key "" is dropped by
-    serialize) | translation-without-quote (`_(` + non-quote) | other"""
+    serialize) | translation-without-quote (`_(` + non-quote) | special-char-in-token (an unquoted part that is not a plain token, e.g.
+    `** {val`) | other"""
     try:
         if U.documented_ast(r["attrs"]):
             return "documented"
@@ -208,7 +213,9 @@ def roundtrip_class(r):
         return "other"
     if U.has_empty_key(r["attrs"]):
         return "empty-key"
-    return "translation-without-quote" if U.has_odd_translation(r["attrs"]) else "other"
+    if U.has_odd_translation(r["attrs"]):
+        return "translation-without-quote"
+    return "special-char-in-token" if U.has_special_in_token(r["attrs"]) else "other"
 
 
 def template_class(source):
@@ -536,6 +543,15 @@ def run_corpus_case(chk, c):
         chk.count(("corpus", c["source"]), True, kind="corpus")
         if cls not in ("ok", "TemplateSyntaxError"):
             chk.fail(c["trigger"], "Template(source) raised %s" % cls, {"kind": kind, "source": c["source"], "exception": cls})
+    elif kind == "roundtrip":
+        r = impl_parse(c["text"])
+        chk.count(("corpus", c["text"]), True, kind="corpus")
+        if r["kind"] != "ok" or r["ser"] is None or roundtrip_class(r) != "documented":
+            chk.fail(c["trigger"], "documented tag %r is not accepted / not recognised as documented" % c["text"], {"kind": kind, "text": c["text"]})
+        else:
+            rt, why = roundtrip(r)
+            if not rt:
+                chk.fail(c["trigger"], "documented tag does not survive serialise + re-parse: " + why, {"kind": kind, "text": c["text"], "serialized": r["ser"]})
     elif kind == "parse_serialize":
         r = impl_parse(c["text"])
         chk.count(("corpus", c["text"]), True, kind="corpus")
@@ -670,6 +686,7 @@ def run(tier, seed):
         ser_texts = []
         n_ok = n_err = 0
         rt_cap = 30000 if thorough else 4000
+        rt_fail = []
         for t, kind in zip(texts, kinds):
             r = impl_parse(t)
             ok = r["kind"] == "ok"
@@ -685,8 +702,7 @@ def run(tier, seed):
                 rt, why = roundtrip(r)
                 cls = roundtrip_class(r)
                 if cls == "documented" and not rt:
-                    chk.fail(T_ROUND, "tag whose arguments are in documented form does not survive serialise + re-parse: " + why,
-                             {"kind": "roundtrip", "text": t, "serialized": r["ser"]})
+                    rt_fail.append((len(t), t, r["ser"], why))
                 chk.dist["roundtrip-ok(%s)" % cls if rt else "roundtrip-differs(%s)" % cls] += 1
                 if not rt and cls == "other":
                     chk.extra.setdefault("roundtrip_differs_unclassified", []).append(t[:120])
@@ -712,8 +728,10 @@ def run(tier, seed):
                     rt, why = roundtrip(r)
                     chk.count(("parse", "x " + t), True, kind="exh-tagged-documented")
                     if not rt:
-                        chk.fail(T_ROUND, "tag whose arguments are in documented form does not survive serialise + re-parse: " + why,
-                                 {"kind": "roundtrip", "text": "x " + t, "serialized": r["ser"]})
+                        rt_fail.append((len(t) + 2, "x " + t, r["ser"], why))
+        for _, t, ser, why in sorted(rt_fail)[:50]:          # shortest failing input first: it becomes the replay
+            chk.fail(T_ROUND, "tag whose arguments are in documented form does not survive serialise + re-parse: " + why,
+                     {"kind": "roundtrip", "text": t, "serialized": ser})
         # canonical serialisations are inputs too (re-parse side of the round trip, inside the model)
         for t in ser_texts:
             r = impl_parse(t)
